@@ -1,5 +1,76 @@
+import OpusModel.Cwrs
 import Driver.Util
-/- Suite stub — replaced by the owner of this suite. -/
+/- Suite `cwrs`: PVQ codeword enumeration (celt/cwrs.c) on the regenerated table, and the
+   bits<->pulses cache look-ups of celt/rate.h.
+
+   ops   V n k                → CELT_PVQ_V(n,k)
+         enc k y1,y2,…        → encode_pulses: `i=<fl> ft=<ft>` handed to ec_enc_uint
+         dec n k i            → decode_pulses with ec_dec_uint answering i: `y=<csv> yy=<Σy²> ft=<ft>`
+         range n k i0 cnt     → hash over i0 ≤ i < i0+cnt of (cwrsi(n,k,i), yy, icwrs(cwrsi(n,k,i)))
+         b2p band LM+1 bits   → bits2pulses        p2b band LM+1 pulses → pulses2bits
+         (LM ranges over -1..maxLM, so the protocol carries LM+1)                                  -/
 namespace Driver.SuiteCwrs
-def handle (_ : List String) : String := "bad-op"
+open Opus Opus.Cwrs Opus.Rate Driver
+
+def mix (h : UInt64) (v : Int) : UInt64 :=
+  let u : UInt64 := if v ≥ 0 then v.toNat.toUInt64 else 0 - (-v).toNat.toUInt64
+  (h ^^^ u) * 0x100000001b3
+
+def hex64 (h : UInt64) : String :=
+  let ds := Nat.toDigits 16 h.toNat
+  String.ofList (List.replicate (16 - ds.length) '0' ++ ds)
+
+def rangeHash (n k : Nat) : Nat → Nat → UInt64 → UInt64
+  | 0, _, h => h
+  | cnt + 1, i, h =>
+    let h := match cwrsi Utab n k i with
+      | .ok (y, yy) =>
+        let h := y.foldl mix h
+        let h := mix h yy
+        match icwrs Utab y with
+        | .ok j => mix h j
+        | _ => mix h (-2)
+      | _ => mix h (-1)
+    rangeHash n k cnt (i + 1) h
+
+def cacheRowFn (band lm1 : Nat) : Option (Nat → Nat) :=
+  match Gen.CeltTables.cacheIndex[lm1 * Gen.CeltTables.nbEBands + band]? with
+  | some ci => if ci < 0 then none else some (fun j => Gen.CeltTables.cacheBits.getD (ci.toNat + j) 0)
+  | none => none
+
+def handle : List String → String
+  | ["V", n, k] =>
+    match parseNat n, parseNat k with
+    | some n, some k => resStr (fun v => s!"v={v}") (pvqV Utab n k)
+    | _, _ => "bad-op"
+  | ["enc", k, ys] =>
+    match parseNat k, parseIntList ys with
+    | some k, some y => resStr (fun r => s!"i={r.1} ft={r.2}") (encodePulses Utab y k)
+    | _, _ => "bad-op"
+  | ["dec", n, k, i] =>
+    match parseNat n, parseNat k, parseNat i with
+    | some n, some k, some i =>
+      -- decode_pulses evaluates CELT_PVQ_V before cwrsi's assertions
+      match decodePulsesFt Utab n k with
+      | .ok ft => resStr (fun r => s!"y={intList r.1} yy={r.2} ft={ft}") (cwrsi Utab n k i)
+      | r => resStr toString r
+    | _, _, _ => "bad-op"
+  | ["range", n, k, i0, cnt] =>
+    match parseNat n, parseNat k, parseNat i0, parseNat cnt with
+    | some n, some k, some i0, some cnt => s!"h={hex64 (rangeHash n k cnt i0 0xcbf29ce484222325)}"
+    | _, _, _, _ => "bad-op"
+  | ["b2p", band, lm, bits] =>
+    match parseNat band, parseNat lm, parseInt bits with
+    | some band, some lm, some bits =>
+      match cacheRowFn band lm with
+      | some row => s!"q={bits2pulsesRow row bits}"
+      | none => "OOB"
+    | _, _, _ => "bad-op"
+  | ["p2b", band, lm, pulses] =>
+    match parseNat band, parseNat lm, parseNat pulses with
+    | some band, some lm1, some p =>
+      resStr (fun b => s!"b={b}") (pulses2bits Gen.CeltTables.cacheIndex Gen.CeltTables.cacheBits Gen.CeltTables.nbEBands band lm1 p)
+    | _, _, _ => "bad-op"
+  | _ => "bad-op"
+
 end Driver.SuiteCwrs
